@@ -435,5 +435,17 @@ def oracle(case):
 def finding_key(case, msg):
     return 'C19:' + case['kind'] + ':' + msg.split(':')[0]
 
-CORPUS = []
+# minimised past failures of Network.from_units (pending_fixes/C19_1..3); they run first on every check
+CORPUS = [
+    # a unit fed by two loops: the unit was listed outside and inside the recycle network (C19_1)
+    {'kind': 'net', 'n': 3, 'nin': [2, 2, 1], 'nout': [3, 1, 1],
+     'edges': [[0, 0, 1, 0], [0, 1, 2, 0], [1, 0, 0, 0], [2, 0, 0, 1]], 'order': [0, 1, 2]},
+    # same loops, product on the fed unit: ValueError 'networks must have units in common to join' (C19_2)
+    {'kind': 'net', 'n': 3, 'nin': [2, 2, 1], 'nout': [2, 2, 1],
+     'edges': [[0, 0, 1, 0], [0, 1, 2, 0], [1, 0, 0, 0], [2, 0, 0, 1]], 'order': [0, 1, 2]},
+    # three interlocking loops: a sub-network merged into an inserted loop stayed in the path (C19_3)
+    {'kind': 'net', 'n': 5, 'nin': [1, 1, 1, 2, 3], 'nout': [1, 2, 1, 2, 2],
+     'edges': [[3, 0, 1, 0], [1, 1, 0, 0], [4, 0, 3, 0], [4, 1, 2, 0], [0, 0, 3, 1], [2, 0, 4, 1], [3, 1, 4, 2]],
+     'order': [2, 4, 3, 1, 0]},
+]
 WITNESSES = []
